@@ -296,6 +296,8 @@ def props_of(name):
     ps = PROPS[name.split(':')[0]]
     if name.startswith(('frame:cnt', 'frame:items', 'frame:ctr')):
         ps = ps + ('C06',)
+    if name.startswith(('frame:free', 'add-frame:free', 'reader-pure:free', 'clone-pure:free')):
+        ps = ps + ('C07',)
     if name.startswith(('frame:pos', 'add-frame:pos', 'clone-equal:pos')):
         ps = ps + ('C05',)
     return ps
